@@ -40,6 +40,7 @@ func stepAlphabet(depth int) []seqx.Step {
 		{Op: "With", Fields: []seqx.Field{{M: "EmbedObject", Form: "val", Sub: nil}, {M: "Err", Val: fmt.Errorf("ce%d", depth)}}},
 		{Op: "Hook", Hooks: []int{depth*10 + 4, depth*10 + 5, depth*10 + 6}},
 		{Op: "Reset"},
+		{Op: "UpdateReset", Fields: []seqx.Field{{M: "Str", Key: k("r"), Val: "x"}}},
 		{Op: "With", Fields: []seqx.Field{{M: "Str", Key: k("big"), Val: strings.Repeat("B", 510)}}},
 		{Op: "With", Fields: []seqx.Field{{M: "Object", Key: k("on"), Form: "nil"}, {M: "Stringer", Key: k("sn"), Val: nil}, {M: "Interface", Key: k("in"), Val: nil}, {M: "Strs", Key: k("se"), Val: []string{}}, {M: "Dict", Key: k("de")}}}, // fields whose value is null / empty must not be dropped
 		// a context whose FIRST field is an object / embedded object larger than the 500 bytes With() reserves
@@ -57,7 +58,7 @@ type eventForm struct {
 }
 
 func eventForms(full bool) []eventForm {
-	entries := []seqx.Entry{{Kind: "Info"}, {Kind: "Debug"}, {Kind: "Log"}, {Kind: "WithLevel", Level: zerolog.WarnLevel}, {Kind: "Err"}, {Kind: "ErrNil"}, {Kind: "Error"}, {Kind: "WithLevel", Level: zerolog.Level(-3)}}
+	entries := []seqx.Entry{{Kind: "Info"}, {Kind: "Debug"}, {Kind: "Log"}, {Kind: "WithLevel", Level: zerolog.WarnLevel}, {Kind: "Err"}, {Kind: "ErrNil"}, {Kind: "Error"}, {Kind: "WithLevel", Level: zerolog.Level(-3)}, {Kind: "WithLevel", Level: zerolog.Level(42)}}
 	fieldSets := [][]seqx.Field{nil, {{M: "Str", Key: "f1", Val: "x"}}, {{M: "Int", Key: "f1", Val: 1}, {M: "Dict", Key: "f2", Sub: []seqx.Field{{M: "Str", Key: "in", Val: "y"}}}}}
 	finals := []seqx.Final{msgM, msgEmpty, {Kind: "Msgf", Text: "fm"}, msgFunc, send, {Kind: "MsgfRaw", Text: "100%% d"}, {Kind: "MsgfArgs", Text: "x"}}
 	var out []eventForm
